@@ -137,7 +137,28 @@ func vChanBody[T any](ops VOps[T], cd Codec[T], c Config, o *Outcome) func() {
 				name = "in"
 			}
 			ins[i] = vsched.Make[T](name, c.Caps[i]).SetTag(i)
-			vsched.Spawn("prod"+strconv.Itoa(i), producerT(ins[i], c.Items[i], cd.Enc))
+			if !c.RoundRobin {
+				vsched.Spawn("prod"+strconv.Itoa(i), producerT(ins[i], c.Items[i], cd.Enc))
+			}
+		}
+		if c.RoundRobin {
+			vsched.Spawn("rr", func() {
+				for j := 0; ; j++ {
+					any := false
+					for i := range ins {
+						if j < len(c.Items[i]) {
+							ins[i].Send(cd.Enc(c.Items[i][j]))
+							any = true
+						}
+					}
+					if !any {
+						break
+					}
+				}
+				for i := range ins {
+					ins[i].Close()
+				}
+			})
 		}
 		return ins
 	}
@@ -306,7 +327,31 @@ func rChanRun[T any](ops ROps[T], cd Codec[T], c Config, r *rand.Rand, o *Outcom
 					continue
 				}
 			}
-			go rproducerT(ins[i], items, cd.Enc, r.Int63())
+			if !c.RoundRobin {
+				go rproducerT(ins[i], items, cd.Enc, r.Int63())
+			}
+		}
+		if c.RoundRobin {
+			seed := r.Int63()
+			go func() {
+				jr := rand.New(rand.NewSource(seed))
+				for j := 0; ; j++ {
+					any := false
+					for i := range ins {
+						if j < len(c.Items[i]) {
+							jitter(jr)
+							ins[i] <- cd.Enc(c.Items[i][j])
+							any = true
+						}
+					}
+					if !any {
+						break
+					}
+				}
+				for i := range ins {
+					close(ins[i])
+				}
+			}()
 		}
 		return ins
 	}
